@@ -30,6 +30,7 @@ type Contract struct {
 	Pure     bool
 	Trusted  bool // contract assumed, body not verified
 	Wraps    bool // integer arithmetic wraps silently in this function (documented behaviour)
+	WrapsUnsigned bool // unsigned arithmetic wraps silently (defined by the language, intended here)
 	NoOvf    bool // do not generate overflow obligations
 	Requires []*Clause
 	Ensures  []*Clause
@@ -37,7 +38,7 @@ type Contract struct {
 	HasMod   bool
 	LoopInv  map[int][]*Clause
 	LoopDec  map[int]*Clause
-	LoopMod  map[int][]string
+	LoopMod  map[int][]*Expr // loop frame: locations the loop body may modify (for the keys they name)
 	Params   []string // for iface / functype contracts: parameter names
 	File     string
 	Line     int
@@ -155,15 +156,15 @@ func parseSpecFile(path, pkgPath string, sf *SpecFile) error {
 					kind = "func"
 				}
 				cur = &Contract{Kind: kind, Name: rest, Pkg: pkgPath, File: path, Line: i + 1,
-					LoopInv: map[int][]*Clause{}, LoopDec: map[int]*Clause{}, LoopMod: map[int][]string{}}
+					LoopInv: map[int][]*Clause{}, LoopDec: map[int]*Clause{}, LoopMod: map[int][]*Expr{}}
 				sf.Contracts = append(sf.Contracts, cur)
 			case "chan":
 				// chan <Type.field> invariant <expr over v>
 				fs := strings.SplitN(rest, " ", 3)
-				if len(fs) < 3 || fs[1] != "invariant" {
+				if len(fs) < 3 || (fs[1] != "invariant" && fs[1] != "assume") {
 					return fmt.Errorf("%s:%d: bad chan clause", path, i+1)
 				}
-				cur = &Contract{Kind: "chan", Name: fs[0], Pkg: pkgPath, File: path, Line: i + 1}
+				cur = &Contract{Kind: "chan", Name: fs[0], Pkg: pkgPath, File: path, Line: i + 1, Trusted: fs[1] == "assume"}
 				sf.Contracts = append(sf.Contracts, cur)
 				pending = &struct {
 					kw, text string
@@ -322,7 +323,12 @@ func addClause(c *Contract, kw, text, file string, line int) error {
 	case "trusted":
 		c.Trusted = true
 	case "wraps":
-		c.Wraps = true
+		switch strings.TrimSpace(text) {
+		case "uint", "unsigned":
+			c.WrapsUnsigned = true
+		default:
+			c.Wraps = true
+		}
 	case "noovf":
 		c.NoOvf = true
 	case "params":
@@ -378,7 +384,13 @@ func addClause(c *Contract, kw, text, file string, line int) error {
 			cl.Loop = n
 			c.LoopDec[n] = cl
 		case "modifies":
-			c.LoopMod[n] = append(c.LoopMod[n], strings.Fields(strings.ReplaceAll(fs[2], ",", " "))...)
+			for _, part := range splitTop(fs[2], ',') {
+				e, err := parseExpr(part)
+				if err != nil {
+					return fmt.Errorf("%s:%d: %v", file, line, err)
+				}
+				c.LoopMod[n] = append(c.LoopMod[n], e)
+			}
 		default:
 			return fmt.Errorf("%s:%d: bad loop clause kind %q", file, line, fs[1])
 		}
